@@ -4,6 +4,7 @@ package main
 
 import (
 	"bytes"
+	"fmt"
 	"go/ast"
 	"go/printer"
 	"go/token"
@@ -12,7 +13,8 @@ import (
 	"strings"
 )
 
-// quickSkeletons returns the four documented Go skeletons (k = 2, action set 0, no http).
+// quickSkeletons returns the four documented Go skeletons (k = 2, action set 0, no http); in the thorough tier
+// additionally the k = 1 and k = 3 unrollings with the other action set (the rules must hold for every unrolling).
 func quickSkeletons(st *Staged) []*Skeleton {
 	var out []*Skeleton
 	for _, sc := range st.Configs {
@@ -22,6 +24,20 @@ func quickSkeletons(st *Staged) []*Skeleton {
 		for _, sk := range sc.Skels {
 			if sk.K == 2 && sk.ActSet == 0 {
 				out = append(out, sk)
+			}
+		}
+	}
+	if st.thorough {
+		for _, sc := range st.Configs {
+			if sc.V.Http {
+				continue
+			}
+			for _, sk := range sc.Skels {
+				if (sk.K == 1 || sk.K == 3) && sk.ActSet == 1 {
+					cp := *sk
+					cp.V.Name = fmt.Sprintf("%s[k=%d]", sk.V.Name, sk.K)
+					out = append(out, &cp)
+				}
 			}
 		}
 	}
